@@ -131,6 +131,8 @@ def armSoundIn (s : Scalar) (k : Kind) (a : Action) : Bool :=
   | .parseIntKeep t => k == .str && s == .int64 && t == .i64
   | .timeOfInt => k.isInt && s == .time
   | .timeOfFloat => k.isFloat && s == .time
+  | .timeOfIntChk => k.isInt && s == .time
+  | .timeOfFloatChk => k.isFloat && s == .time
   | .timeParseKeep => k == .str && s == .time
   | .convStrict t => k.isFloat && ((s == .float && t == .f32) || (s == .float64 && t == .f64))
   | .parseFloatFinite t => k == .str && s == .float64 && t == .f64
@@ -143,6 +145,8 @@ def timeSoundOut (k : Kind) (a : Action) : Bool :=
   | .asIs => k == .nil || k == .time
   | .timeOfInt => k.isInt
   | .timeOfFloat => k.isFloat
+  | .timeOfIntChk => k.isInt
+  | .timeOfFloatChk => k.isFloat
   | _ => false
 
 /-- conversions of integers to a float scalar: finite, given the `Ext` laws -/
